@@ -6,7 +6,11 @@
 (*                 c \in Const2, and (MaxC = 3) every multiset of 3 factoids with a1 \in CoefA3,     *)
 (*                 a2 \in CoefB3, c \in Const3, is reached from the single initial state by AddRow:  *)
 (*                 zero rows, duplicates, equalities as paired inequalities, unbounded directions,  *)
-(*                 inexact (dark / grey shadow) eliminations are all included.                      *)
+(*                 inexact (dark / grey shadow) eliminations are all included; plus every 3-row     *)
+(*                 multiset over RowsR (CoefR, ConstR) in which one linear form is bounded twice    *)
+(*                 with different constants.  For the replay these are also written as ORDERED      *)
+(*                 systems (RepeatSeqs: all 6 orders of {weak bound, tight bound, other row}):      *)
+(*                 the order of assertion is a history for the simplex code, not for the meaning.   *)
 (*   state       : orig (the system), cur (the factoids after eliminating the variables in elim),   *)
 (*                 kind ("rat" Fourier-Motzkin | "real" real shadow + GCD tightening | "dark"       *)
 (*                 dark shadow + tightening), exact (every elimination so far met Pugh's            *)
@@ -28,25 +32,47 @@
 (* The universe is written as vectors (EmitSpec, POSTCONDITION Emit) and replayed into the real code.*)
 EXTENDS C16_LinCore, TLC, Json, IOUtils, SequencesExt
 
-CONSTANTS Coef2, Const2, MinC, MaxC, CoefA3, CoefB3, Const3, B, BU, BS, BS0, K
+CONSTANTS Coef2, Const2, MinC, MaxC, CoefA3, CoefB3, Const3, CoefR, ConstR, B, BU, BS, BS0, K
 \* value sets for the cfg files (a cfg cannot contain negative literals)
 R22 == (-2)..2
 R33 == (-3)..3
 R11 == (-1)..1
 S202 == {-2, 0, 2}
 S11 == {-1, 1}
+Z0 == {0}
 NV == 2
 Dens == {1, 2, 3, 4, 5, 6, 8}          \* all |2x2 determinants| with entries in -2..2
 
 Rows2 == { <<a, b, c>> : a \in Coef2, b \in Coef2, c \in Const2 }
 Rows3 == { <<a, b, c>> : a \in CoefA3, b \in CoefB3, c \in Const3 }
 RowLeq(r, s) == r[1] < s[1] \/ (r[1] = s[1] /\ (r[2] < s[2] \/ (r[2] = s[2] /\ r[3] <= s[3])))
-ASSUME Rows3 \subseteq Rows2      \* AddRow builds 3-row systems by extending 2-row systems
+\* the "repeated left-hand side" class: 3-row systems over RowsR in which one linear form occurs twice with different
+\* constants (two bounds on the same form: the solver shares one slack variable between them)
+RowsR == { <<a, b, c>> : a \in CoefR, b \in CoefR, c \in ConstR }
+HasRepeat(s) == \E i \in 1..Len(s) : \E j \in 1..Len(s) :
+                  i < j /\ s[i][1] = s[j][1] /\ s[i][2] = s[j][2] /\ s[i][3] # s[j][3] /\ (s[i][1] # 0 \/ s[i][2] # 0)
+ASSUME Rows3 \subseteq Rows2 /\ RowsR \subseteq Rows2      \* AddRow builds 3-row systems by extending 2-row systems
+SortedTriples(R) == { q \in R \X R \X R : RowLeq(q[1], q[2]) /\ RowLeq(q[2], q[3]) }
 Systems ==
   { <<r>> : r \in Rows2 }
   \cup { <<p[1], p[2]>> : p \in { q \in Rows2 \X Rows2 : RowLeq(q[1], q[2]) } }
-  \cup (IF MaxC >= 3 THEN { <<p[1], p[2], p[3]>> : p \in { q \in Rows3 \X Rows3 \X Rows3 : RowLeq(q[1], q[2]) /\ RowLeq(q[2], q[3]) } }
+  \cup (IF MaxC >= 3 THEN { <<p[1], p[2], p[3]>> : p \in SortedTriples(Rows3) }
+                           \cup { <<p[1], p[2], p[3]>> : p \in { q \in SortedTriples(RowsR) : HasRepeat(q) } }
         ELSE {})
+\* ORDERED systems for the replay (assertion order is a history for the simplex code): every ordering of
+\* { f.x >= -c1, f.x >= -c2, g.x >= -c3 } with c1 # c2 and g another form -- weak-then-tight, tight-then-weak, with the
+\* third row before, between and after.  Their multisets are systems of the class above (RepeatInClass).
+FormsR == { <<a, b>> : a \in CoefR, b \in CoefR } \ { <<0, 0>> }
+RepeatSeqs ==
+  IF MaxC < 3 THEN {} ELSE
+  UNION { UNION { UNION { UNION { UNION {
+    LET F1 == <<f[1], f[2], c1>>  F2 == <<f[1], f[2], c2>>  G == <<g[1], g[2], c3>> IN
+    IF c1 = c2 THEN {} ELSE { <<F1, F2, G>>, <<F1, G, F2>>, <<G, F1, F2>> }
+    : c3 \in ConstR } : g \in FormsR \ {f} } : c2 \in ConstR } : c1 \in ConstR } : f \in FormsR }
+Sort3(s) == CHOOSE p \in { <<s[1], s[2], s[3]>>, <<s[1], s[3], s[2]>>, <<s[2], s[1], s[3]>>,
+                            <<s[2], s[3], s[1]>>, <<s[3], s[1], s[2]>>, <<s[3], s[2], s[1]>> } :
+                 RowLeq(p[1], p[2]) /\ RowLeq(p[2], p[3])
+RepeatInClass == \A s \in RepeatSeqs : Sort3(s) \in Systems
 
 VARIABLES orig, cur, elim, kind, exact
 vars == <<orig, cur, elim, kind, exact>>
@@ -56,7 +82,9 @@ vars == <<orig, cur, elim, kind, exact>>
 Init == orig = <<>> /\ kind = "none" /\ cur = {} /\ elim = {} /\ exact = TRUE
 AddRow == /\ kind = "none" /\ Len(orig) < MaxC
           /\ LET cand == IF Len(orig) < 2 THEN Rows2
-                         ELSE IF \A f \in RangeOf(orig) : f \in Rows3 THEN Rows3 ELSE {} IN
+                         ELSE (IF \A f \in RangeOf(orig) : f \in Rows3 THEN Rows3 ELSE {})
+                              \cup (IF \A f \in RangeOf(orig) : f \in RowsR
+                                    THEN { r \in RowsR : HasRepeat(Append(orig, r)) } ELSE {}) IN
              \E r \in cand : /\ (Len(orig) > 0 => RowLeq(orig[Len(orig)], r))
                              /\ orig' = Append(orig, r)
           /\ UNCHANGED <<cur, elim, kind, exact>>
@@ -104,8 +132,10 @@ Covered == MinC > 1 \/ TLCGet("distinct") >= 4 * Cardinality(Systems)
 \* the class itself, written as vectors by a run of EmitSpec (same module, same constants, no exploration) so that the
 \* replay into the code can proceed while TLC explores Spec
 EmitSpec == Init /\ [][FALSE]_vars
-Emit == LET ss == SetToSeq(Systems) IN
+Emit == LET ss == SetToSeq(Systems)  ps == SetToSeq(RepeatSeqs) IN
         /\ TLCGet("distinct") >= 1
-        /\ ndJsonSerialize(IOEnv.VECTOR_FILE, [i \in 1..Len(ss) |-> [m |-> ss[i]]])
-        /\ PrintT(<<"systems", Len(ss)>>)
+        /\ RepeatInClass
+        /\ ndJsonSerialize(IOEnv.VECTOR_FILE, [i \in 1..(Len(ss) + Len(ps)) |->
+                                IF i <= Len(ss) THEN [m |-> ss[i], fam |-> "v"] ELSE [m |-> ps[i - Len(ss)], fam |-> "p"]])
+        /\ PrintT(<<"systems", Len(ss), "ordered repeated-form systems", Len(ps)>>)
 =============================================================================
